@@ -41,6 +41,16 @@ CHECKS = {
             "Invisible-to-get defects (leaks, orphans, double use, stale index entries, wrong node counts) become assertion failures of an independent reader of the documented formats, after drains, clean reopens and crash recoveries of generated histories over all column kinds.",
             "Layout reader = independent re-implementation of the documented on-disk formats; one known finding (claimed multitree slots leaked by a crash) is tolerated by its exact shape and counted.",
             "DESIGN.md 4 C14", "pdbv"),
+    "C08": ("exploration",
+            "model-based PBT with fault-style injection of invalid operations: generated valid histories with poisoned transactions (one invalid operation at a generated position among valid ones) and a background-error state; before/after observation equality + model continuity + raw slot accounting",
+            "Each error class the property names is generated at every position inside multi-column transactions; the oracle is conditional on Err and compares the complete observation before/after, later reads, drained layout (nothing consumed) and the reopened state with a model that ignores the transaction.",
+            "A poisoned transaction that is accepted discards the scenario (counted); the background-error state is entered via the verif_store_err hook (same store_err path as a failing worker).",
+            "DESIGN.md 4 C08", "pdbv"),
+    "C10": ("exploration",
+            "model-based stateful PBT over a forest model (arena of nodes with parent counts): generated InsertTree/ReferenceTree/DereferenceTree histories with shared nodes, traversal oracle after every op, entry-count and raw forest/ref-count comparison after drain",
+            "Generated tree shapes (fan-out up to 255 and unrepresentable 256/300, multipart nodes, DAG sharing incl. the same node several times) over four column variants; every live tree is traversed after every op; after drains the files are re-parsed (node reference counts == referencing parents, forest == model, zero entries when no tree is live).",
+            "Existing-node references follow the client contract (nodes of trees live after all returned commits; not in a transaction that also dereferences).",
+            "DESIGN.md 4 C10", "pdbv"),
 }
 
 NOT_YET = {
